@@ -112,17 +112,40 @@ func genC17(c *Ctx) any {
 			}
 			var ph HPhase
 			// keep at most one simultaneous pool waiter
-			ph.Tasks = append(ph.Tasks, []HOp{{Kind: "maxopen", H: h, N: nt - r.Intn(2)}})
+			pre := []HOp{{Kind: "maxopen", H: h, N: nt - r.Intn(2)}}
+			// connection churn: with no idle connections kept, every query opens a driver
+			// connection and closes it again, so last-reference closes and first opens of one
+			// cache key interleave across tasks
+			churn := r.Chance(1, 2)
+			if churn {
+				pre = append(pre, HOp{Kind: "maxidle", H: h, N: 0})
+			}
+			// a second handle on the same file (same or other options) used by half of the tasks
+			h2 := -1
+			if r.Chance(1, 3) {
+				opts := handleOpts[r.Intn(len(handleOpts))]
+				hs = append(hs, hstate{open: true, file: hs[h].file})
+				h2 = len(hs) - 1
+				pre = append(pre, HOp{Kind: "open", H: h2, File: hs[h].file, Opts: opts}, HOp{Kind: "maxopen", H: h2, N: nt})
+				if churn {
+					pre = append(pre, HOp{Kind: "maxidle", H: h2, N: 0})
+				}
+			}
+			ph.Tasks = append(ph.Tasks, pre)
 			cs.Phases = append(cs.Phases, ph)
 			ph = HPhase{}
 			for t := 0; t < nt; t++ {
 				var ops []HOp
+				hh := h
+				if h2 >= 0 && t%2 == 1 {
+					hh = h2
+				}
 				for i, n := 0, r.Range(1, 3); i < n; i++ {
 					// direct queries only: closing a prepared statement takes database/sql's
 					// per-connection mutex of every connection it was prepared on, which a parked
 					// task may hold (a real mutex the simulator cannot see); shared statements
 					// under concurrency are C11's business
-					q := query(h)
+					q := query(hh)
 					q.Q.Via = ""
 					ops = append(ops, q)
 				}
